@@ -243,7 +243,7 @@ def _census(ctx, R, region_name, fids, rows):
 
 def r4_panic_census(ctx):
     R = ctx.rule("C18.R4", "panic census: every potential panic site in the call-graph regions of the accept path (start / acceptors) and of http_request_handle_wrap is on "
-                 "tables/c18_panics.txt with a reason and at most the reviewed multiplicity", floor=38)   # one instance per (region, function item, kind, what); 44 before closures were counted with their function
+                 "tables/c18_panics.txt with a reason and at most the reviewed multiplicity", floor=37)   # one instance per (region, function item, kind, what); 44 before closures were counted with their function
     if not os.path.exists(TABLE):
         ctx.lost(R, "tables/c18_panics.txt")
         return
